@@ -68,7 +68,13 @@ class _Dummy:
 
 def _dummy_module(name):
     m = types.ModuleType(name)
-    m.__getattr__ = lambda attr: _Dummy if not attr.startswith('__') else (_ for _ in ()).throw(AttributeError(attr))
+    def _ga(attr):
+        if attr.startswith('__'):
+            raise AttributeError(attr)
+        # names that look like classes stay classes (so that `class X(Base)` / isinstance keep working); the rest are
+        # permissive instances (so that `plt.plot(...)`, `mod.sub.func(...)` are no-ops)
+        return _Dummy if attr[:1].isupper() else _Dummy()
+    m.__getattr__ = _ga
     return m
 
 
@@ -149,6 +155,7 @@ class Env:
         self.modules = {}
         self.stubs = dict(extra_stubs or {})
         self.float_literals_exact = float_literals_exact
+        self.ast_patches = {}      # module relname -> list of AST transformers (recorded bound cuts)
         self.hashes = {}
         self._install_default_stubs()
 
@@ -256,7 +263,10 @@ class Env:
         self.hashes[os.path.relpath(path, self.repo)] = hashlib.sha256(src).hexdigest()
         tree = ast.parse(src, filename=path)
         if self.float_literals_exact:
-            tree = ast.fix_missing_locations(_FloatToFraction().visit(tree))
+            tree = _FloatToFraction().visit(tree)
+        for p in self.ast_patches.get(relname, []):
+            tree = p(tree)
+        tree = ast.fix_missing_locations(tree)
         code = compile(tree, path, 'exec')
         b = dict(vars(builtins))
         b['__import__'] = self._import
@@ -275,6 +285,33 @@ class Env:
         except BaseException:
             self.modules.pop(full, None)
             raise
+        return mod
+
+    def load_file(self, name, path, patches=None):
+        """load an arbitrary source file (e.g. the vendored reference library) with the same environment replacement;
+        patches: list of callables ast.Module -> ast.Module applied before compilation (recorded bound cuts)"""
+        key = 'file:' + name
+        if key in self.modules:
+            return self.modules[key]
+        mod = types.ModuleType(name)
+        mod.__file__ = path
+        mod.__package__ = ''
+        src = open(path, 'rb').read()
+        self.hashes[os.path.relpath(path, '/')] = hashlib.sha256(src).hexdigest()
+        tree = ast.parse(src, filename=path)
+        if self.float_literals_exact:
+            tree = _FloatToFraction().visit(tree)
+        for p in (patches or []):
+            tree = p(tree)
+        tree = ast.fix_missing_locations(tree)
+        code = compile(tree, path, 'exec')
+        b = dict(vars(builtins))
+        b.update({'__import__': self._import, 'float': _sym_float, 'round': _sym_round, 'print': _quiet_print,
+                  '__vt_frac__': _vt_frac, 'abs': _sym_abs, 'min': _sym_min, 'max': _sym_max, 'sum': _sym_sum,
+                  'isinstance': _sym_isinstance})
+        mod.__dict__['__builtins__'] = b
+        self.modules[key] = mod
+        exec(code, mod.__dict__)
         return mod
 
     def get(self, dotted):
@@ -385,3 +422,25 @@ def _sym_isinstance(obj, cls):
     if isinstance(cls, tuple) and any(c is _sym_float for c in cls):
         cls = tuple(float if c is _sym_float else c for c in cls)
     return isinstance(obj, cls)
+
+
+class SetConstant(ast.NodeTransformer):
+    """AST cut: inside function `func`, replace the value assigned to local `name` by `value`
+    (used to cap hard-coded iteration counts; recorded in the evidence as a bound)"""
+
+    def __init__(self, func, name, value):
+        self.func, self.name, self.value = func, name, value
+        self.hits = 0
+
+    def __call__(self, tree):
+        return self.visit(tree)
+
+    def visit_FunctionDef(self, node):
+        if node.name != self.func:
+            return node
+        for sub in ast.walk(node):
+            if isinstance(sub, ast.Assign) and len(sub.targets) == 1 and isinstance(sub.targets[0], ast.Name) \
+                    and sub.targets[0].id == self.name:
+                sub.value = ast.Constant(value=self.value)
+                self.hits += 1
+        return node
